@@ -247,23 +247,24 @@ def run(pid, tier):
     walks = [(16, 2, 20000), (33, 4, 20000), (64, 3, 20000), (300, 3, 2500)] if quick else \
             [(16, 2, 150000), (24, 1, 100000), (33, 4, 150000), (48, 8, 100000), (64, 3, 150000), (64, 6, 150000), (7, 2, 100000), (13, 3, 100000),
              (300, 3, 8000), (520, 2, 5000)]      # heaps that hold texts of more than 255 characters (explicit lengths)
-    for k, (size, cap, steps) in enumerate(walks):
+    walks = [(s_, c_, n_, None) for (s_, c_, n_) in walks] + [(33, 3, 8000 if quick else 60000, {'DRV_WRITE_ZERO': '1'})]      # last: a write callback that reports 0 bytes
+    for k, (size, cap, steps, wenv) in enumerate(walks):
         raw = '%s/walk%d.raw' % (w, k)
         sd = lib.seed() * 131 + k
-        d = lib.run_driver(exe, ['walk', sd, steps, size, cap, raw], timeout=600)
+        d = lib.run_driver(exe, ['walk', sd, steps, size, cap, raw], timeout=600, env=wenv)
         if d['rc'] != 0:
             driver_failure(rep, d, 'walk seed=%d steps=%d size=%d cap=%d' % (sd, steps, size, cap))
             continue
         nd = raw[:-4] + '.ndjson'
         locs = split_locs(raw, nd)
-        def hist(step, sd=sd, steps=steps, size=size, cap=cap):
-            dd = lib.run_driver(exe, ['walk', sd, steps, size, cap, '/dev/null', step])
+        def hist(step, sd=sd, steps=steps, size=size, cap=cap, wenv=wenv):
+            dd = lib.run_driver(exe, ['walk', sd, steps, size, cap, '/dev/null', step], env=wenv)
             h = dd['stdout'].decode().splitlines()
             if dd['rc'] == 0:
                 return dict(history=h[:-1], size=size, cap=cap, walk=dict(seed=sd, step=step))
             return dict(walk=dict(seed=sd, step=step, size=size, cap=cap))
         rep.cov['driver_runs'].append(dict(walk_seed=sd, size=size, cap=cap, steps=steps, distinct_records=len(locs)))
-        batch.add(nd, locs, hist, 'walk-%d-%d' % (size, cap))
+        batch.add(nd, locs, hist, 'walk-%d-%d%s' % (size, cap, '-write0' if wenv else ''))
         flush()
     flush(True)
     for fu in futs:
